@@ -294,8 +294,18 @@ def drive_compaction(rec, quick, cases=()):
                         if not np.array_equal(B0.i64[r0 + i * rsl:r0 + i * rsl + n], e):
                             bad = i
                             break
+                    # a limb of the aliased source that no output limb touches keeps its bytes (the cells between the limbs too)
+                    touched = None
+                    for j in range(size):
+                        lo = a0 + j * asl
+                        if all(not (r0 + i * rsl < lo + n and lo < r0 + i * rsl + n) for i in range(rs)) and \
+                                not np.array_equal(B0.i64[lo:lo + n], src[j]):
+                            touched = j
+                            break
                     if bad is not None:
                         rec.violation(label + ": output limb %d is not the operation applied to the operand limbs %d as passed" % (bad, bad), {"limb": bad})
+                    elif touched is not None:
+                        rec.violation(label + ": limb %d of the source vector, which no output limb overlaps, was modified" % touched, {"limb": touched})
                     else:
                         ok += 1
             # normalisation over its own input with another stride (the limbs are taken from the last one up): against the same call with a
